@@ -177,10 +177,10 @@ Late(sh, d) == st[sh].armed /\ st[sh].late = 0
 Over(sh) == OddOps /\ st[sh].ph = "done" /\ st[sh].zomb
 ZStop(sh) == Over(sh) /\ Op([W EXCEPT !.st[sh].zomb = FALSE], [op |-> "stop", sh |-> sh])
 ZCtl(sh, a) == Over(sh) /\ Op(W, a)
-\* resume to a show that is not paused: either nothing, or on to the next step at once - but one schedule only
+\* resume to a show that is not paused: on to the next step at once, the pending timer is replaced - there is one
+\* schedule only (ShowsTrace also admits "nothing happens", the statement does not choose between the two)
 ResumeArmed(sh) == /\ OddOps /\ Live(sh) /\ st[sh].armed
-                   /\ \/ Op(W, [op |-> "resume", sh |-> sh])
-                      \/ Op(RunNext(Rebase(W, sh), sh, now, <<>>), [op |-> "resume", sh |-> sh])
+                   /\ Op(RunNext(Rebase(W, sh), sh, now, <<>>), [op |-> "resume", sh |-> sh])
 \* one unit of time passes; every show timer due by then runs (StepDue)
 Adv == /\ now < MaxTime /\ now' = now + 1
        /\ \E w \in FireSet(Expire(W, now + 1), now + 1) : Commit(w, [op |-> "adv"])
